@@ -47,6 +47,11 @@ pub struct Profile {
     pub p_world2: f64,
     /// PRM: probability of the query history setup, construct, solve, set_problem(P2), solve
     pub p_prm_requery: f64,
+    /// probability that one rotation / later component of a composite space gets weight 0
+    pub p_zero_weight: f64,
+    /// probability of an unusual start: a non-canonical angle (+-2 pi k), a negated quaternion,
+    /// or an R^n coordinate a little outside its box (planners never consult the bounds)
+    pub p_odd_start: f64,
     /// spaces with an SO3 component: probability that the goal target is a rotation close to
     /// the start given by the opposite-sign quaternion, with a step below their separation
     pub p_so3_signflip: f64,
@@ -72,6 +77,8 @@ impl Default for Profile {
             p_world2: 0.3,
             p_prm_requery: 0.0,
             p_so3_signflip: 0.0,
+            p_zero_weight: 0.04,
+            p_odd_start: 0.06,
         }
     }
 }
@@ -102,6 +109,7 @@ pub fn gen_goal(ch: &mut Ch, cfg: &SpaceCfg, extent: f64, rng_goal: f64) -> Goal
         targets,
         radius: ch.log_range(0.02, 0.3) * extent,
         rng_sampler: ch.prob(rng_goal),
+        half: ch.prob(0.12),
     }
 }
 
@@ -208,7 +216,12 @@ pub fn gen_plan_case(ch: &mut Ch, prof: &Profile) -> PlanCase {
     } else {
         prof.bounds
     };
-    let space = gen_space(ch, kind, bounds_mode, true);
+    let mut space = gen_space(ch, kind, bounds_mode, true);
+    if space.weights.len() > 1 && ch.prob(prof.p_zero_weight) {
+        // SE2/SE3: the rotation weight; compound: any component but the first
+        let i = 1 + ch.below(space.weights.len() - 1);
+        space.weights[i] = 0.0;
+    }
     let extent = approx_extent(&space).max(1e-9);
     let lvs = lvs_of(&space).unwrap_or(extent * 0.05);
     let step = match ch.weighted(&[7.0, 1.5, 1.5]) {
@@ -248,6 +261,28 @@ pub fn gen_plan_case(ch: &mut Ch, prof: &Profile) -> PlanCase {
                 goal.targets[0][offs[i]] = ch.range(hi - m, hi - 1e-6);
                 break;
             }
+        }
+    }
+    if prof.bounds != BoundsMode::Bounded && ch.prob(prof.p_odd_start) {
+        // (not for the C04 profile, whose premise is a start inside the bounds)
+        let offs = space.offsets();
+        let i = ch.below(space.comps.len());
+        let o = offs[i];
+        match &space.comps[i] {
+            Comp::RV { bounds: Some(b), .. } => {
+                let k = ch.below(b.len());
+                let (lo, hi) = b[k];
+                start[o + k] = if ch.prob(0.5) { hi + 0.05 * (hi - lo) } else { lo - 0.05 * (hi - lo) };
+            }
+            Comp::SO2 { .. } => {
+                start[o] += 2.0 * std::f64::consts::PI * ch.pick(&[1.0, -1.0, 2.0]);
+            }
+            Comp::SO3 { .. } => {
+                for k in 0..4 {
+                    start[o + k] = -start[o + k];
+                }
+            }
+            _ => {}
         }
     }
     let mut step = step;
@@ -556,7 +591,7 @@ impl<K: Kind> KSpace<K> {
         K::enc(&o)
     }
     pub fn goal_satisfied(&self, g: &GoalCfg, s: &[f64]) -> bool {
-        g.targets.iter().any(|t| self.d(s, t) <= g.radius)
+        crate::wrap::goal_pred(g, s, |i| self.d(s, &g.targets[i]))
     }
 }
 
